@@ -124,6 +124,27 @@ fn subjects() -> Vec<Subject> {
             w.0
         }),
     });
+    // the same node under a parent (a handle value of 936): an option changes its own flag bit, never the parent field
+    v.push(Subject {
+        exclusive: vec![],
+        unjudged: vec![],
+        name: "pptt.ProcessorNode[with parent]",
+        actions: vec!["physical", "valid", "thread", "leaf", "identical"],
+        real: Box::new(move |s| {
+            let parent = topo::foreign_parent();
+            let mut p = pptt::ProcessorNode::new(Some(&parent), f.u32(0));
+            for a in s {
+                p = topo::real_proc_opts(p, 1 << *a);
+            }
+            ser(&p)
+        }),
+        reference: Box::new(move |s| {
+            let m = mask_of(s, &[1, 2, 4, 8, 16]);
+            let mut w = W::new();
+            w.u8(0).u8(20).u16(0).u32(m as u32).u32(topo::FOREIGN_PARENT_OFFSET).u32(f.u32(0)).u32(0);
+            w.0
+        }),
+    });
     // PPTT cache node: 8 setters; the enum-valued ones over all variants (repeated enum setters OR together: union semantics)
     {
         let acts = vec![
